@@ -289,8 +289,7 @@ Lemma st_find_rules_fst s event now :
 Proof.
   unfold st_find_rules.
   match goal with |- fst (let '(s1, res) := ?X in _) = _ => destruct X as [s1 res] end.
-  cbn [fst]. destruct res as [l|e|w|]; try reflexivity.
-  destruct (check_rules l); reflexivity.
+  cbn [fst]. destruct res as [l|e|w|]; reflexivity.
 Qed.
 
 Lemma st_find_rules_fsub s event now : fsub (st_facts (fst (st_find_rules s event now))) (st_facts s).
